@@ -127,6 +127,22 @@ pub fn stateful_modules() -> Vec<(&'static str, Vec<u8>)> {
             (func (export "ddrop") (data.drop $dpas))
             (func (export "call") (param i32) (result i32) (call_indirect $t0 (type $t) (i32.rem_u (local.get 0) (i32.const 6))))
             (func (export "rf") (result i32) (ref.is_null (ref.func $f))))"#),
+        // v128 constants whose sixteen bytes are all different and non-zero, in a body, in a global
+        // initialiser and written to memory (a v128 cannot cross the host boundary: lanes and bytes can)
+        ("simd-consts", r#"(module
+            (memory (export "mem") 1)
+            (global $gv v128 (v128.const i8x16 0xa1 0xa2 0xa3 0xa4 0xa5 0xa6 0xa7 0xa8 0xa9 0xaa 0xab 0xac 0xad 0xae 0xaf 0xb0))
+            (func (export "lane8") (param i32) (result i32)
+               (v128.store (i32.const 0) (v128.const i8x16 1 2 3 4 5 6 7 8 9 10 11 12 13 14 15 16))
+               (i32.load8_u (i32.and (local.get 0) (i32.const 15))))
+            (func (export "glane8") (param i32) (result i32)
+               (v128.store (i32.const 16) (global.get $gv))
+               (i32.load8_u (i32.add (i32.const 16) (i32.and (local.get 0) (i32.const 15)))))
+            (func (export "lanes32") (result i32)
+               (i32.xor (i32x4.extract_lane 2 (v128.const i32x4 0x01020304 0x11121314 0x21222324 0x31323334)) (i32x4.extract_lane 3 (v128.const i32x4 0x41424344 0x51525354 0x61626364 0x71727374))))
+            (func (export "f64lane") (result f64) (f64x2.extract_lane 1 (v128.const f64x2 1.5 -2.7182818)))
+            (func (export "shuffle") (result i32)
+               (i32x4.extract_lane 1 (i8x16.shuffle 0 17 2 19 4 21 6 23 8 25 10 27 12 29 14 31 (v128.const i8x16 1 2 3 4 5 6 7 8 9 10 11 12 13 14 15 16) (v128.const i8x16 0xf1 0xf2 0xf3 0xf4 0xf5 0xf6 0xf7 0xf8 0xf9 0xfa 0xfb 0xfc 0xfd 0xfe 0xff 0xe0)))))"#),
         // every width of atomic load / store / read-modify-write at an address taken from the first
         // parameter (mod 64): an unaligned atomic access traps where the plain access of the same
         // width would not
